@@ -83,6 +83,7 @@ type Ctx struct {
 	SCLI  *ssa.Package
 	cache map[string]*RuleResult
 	lits  []*ast.CompositeLit
+	gwCache map[*ssa.Global]bool
 
 	A *Anchors
 
@@ -427,8 +428,43 @@ func blockReturn(b *ssa.BasicBlock) *ssa.Return {
 	if len(b.Instrs) == 0 {
 		return nil
 	}
+	if b.Parent().Recover == b {
+		// the recover block of a function with defers: only reached when a
+		// panic is recovered, which the library never does (rule BAN)
+		return nil
+	}
 	r, _ := b.Instrs[len(b.Instrs)-1].(*ssa.Return)
 	return r
+}
+
+// retResults resolves the results of a return; in functions with defers
+// go/ssa spills results into allocs (*t0 = v; rundefers; t = *t0; return t).
+func retResults(ret *ssa.Return) []ssa.Value {
+	out := make([]ssa.Value, len(ret.Results))
+	for i, v := range ret.Results {
+		out[i] = v
+		ld, ok := v.(*ssa.UnOp)
+		if !ok || ld.Op != token.MUL || ld.Block() != ret.Block() {
+			continue
+		}
+		al, ok := ld.X.(*ssa.Alloc)
+		if !ok {
+			continue
+		}
+		var last ssa.Value
+		for _, in := range ret.Block().Instrs {
+			if in == ld {
+				break
+			}
+			if st, ok := in.(*ssa.Store); ok && st.Addr == al {
+				last = st.Val
+			}
+		}
+		if last != nil {
+			out[i] = last
+		}
+	}
+	return out
 }
 
 func blockIf(b *ssa.BasicBlock) *ssa.If {
